@@ -149,6 +149,13 @@ def run_check(tier, seed):
                     k[kw] = rng.choice(POOLS.get(kw, ["x"]) + [None])
                 calls.append((fn, [rng.choice(VERSIONS[:3])] if posn else [], k, "subset"))
 
+        # a child that does not exit but DIES (signal): the deeply nested template of known finding C13 aborts the process; the wrapper
+        # must raise for it as for any other failure
+        deep = "{{ " + "(" * 3000 + "1" + ")" * 3000 + " }}"
+        calls.append(("render", [VERSIONS[0]], {"output_template": deep}, "dies"))
+        calls.append(("version", [], {"source": "none", "tag_version": "1.2.3", "output_template": deep}, "dies"))
+        calls.append(("flow", [], {"source": "none", "tag_version": "1.2.3", "output_template": deep}, "dies"))
+
         # ---------------- stateful sequences: the same call repeated in one interpreter while the repository changes in between
         seq_repo = os.path.join(root, "seqrepo")
         gitfx.build_repo(seq_repo, [("commit", 1700000000), ("tag", "v1.0.0")])
